@@ -11,3 +11,23 @@ void witness_c04(std::vector<const char*>& cs, std::vector<std::string>& ss, std
     tlx::sort_strings_parallel(ss, 0);
     tlx::sort_strings_parallel_lcp(cs, lcp, 0);
 }
+
+// the classifier classes that PS5ParametersDefault does not select (selectable through parallel_sample_sort_params<>):
+// build / get_splitter / classify of each, so that their descent routines are in the IR (rule CLASSIFY-BUCKET).
+#include <tlx/sort/strings/sample_sort_tools.hpp>
+#include <tlx/sort/strings/string_set.hpp>
+
+void witness_c04_classifiers(const tlx::sort_strings_detail::UCharStringSet& ss, std::uint64_t* samples, std::size_t n,
+                             unsigned char* splitter_lcp, std::uint16_t* bktout) {
+    tlx::sort_strings_detail::SSClassifyTreeUnrollInterleave<std::uint64_t, 5> a;
+    a.build(samples, n, splitter_lcp);
+    a.classify(ss, ss.begin(), ss.end(), bktout, 0);
+    (void)a.get_splitter(0);
+    // (SSClassifyEqualUnroll is not instantiated: its get_splitter(i) reads pre_to_levelorder(i) where the bucket numbering of its own
+    //  find_bkt() needs pre_to_levelorder(i + 1) - get_splitter(0) evaluates ctz(0).  Reported as a defect of the unchanged tree;
+    //  add it here together with the fix.)
+    tlx::sort_strings_detail::SSClassifyTreeCalcUnrollInterleave<std::uint64_t, 3> c;
+    c.build(samples, n, splitter_lcp);
+    c.classify(ss, ss.begin(), ss.end(), bktout, 0);
+    (void)c.get_splitter(0);
+}
